@@ -1,5 +1,5 @@
 import ast
-from typing import List, cast
+from typing import List, Set, cast
 
 from graphql import (
     GraphQLInterfaceType,
@@ -62,8 +62,18 @@ class CustomFieldsTypingGenerator:
                 definition, (GraphQLObjectType, GraphQLInterfaceType, GraphQLUnionType)
             )
             and not name.startswith("__")
-            and name not in OPERATION_TYPES
+            and (name not in OPERATION_TYPES or name in self._get_field_types_names())
         ]
+
+    def _get_field_types_names(self) -> Set[str]:
+        """Names of types returned by fields, operation types are among them
+        when schema lets to query them from other types, e.g. `query: Query!`."""
+        return {
+            get_final_type(field).name
+            for definition in self.schema.type_map.values()
+            if isinstance(definition, (GraphQLObjectType, GraphQLInterfaceType))
+            for field in definition.fields.values()
+        }
 
     def _generate_field_class(
         self,
